@@ -27,9 +27,9 @@ def check(ctx):
     if not m["ok"]:
         raise vf.Inconclusive("Runtime model violates %s" % m["violated"])
     g = vf.tlc(ctx, "Runtime", "mc/Runtime.cfg", name="runtime-gen", dump="states", defines={"K": ctx.pick(3, 4), "MODE": "gen"}, timeout=1200, workers=4)
-    runs = [("", 1, None), ("pressure", ctx.pick(4, 5), None)]
+    runs = [("", 1, None), ("pressure", ctx.pick(2, 1), None)]
     if not ctx.quick:
-        runs += [("", 3, "SONIC_ENCODER_USE_VM=1"), ("", 3, "SONIC_USE_OPTDEC=1"), ("pressure", 20, "SONIC_MODE=noavx2")]
+        runs += [("", 3, "SONIC_ENCODER_USE_VM=1"), ("", 3, "SONIC_USE_OPTDEC=1"), ("pressure", 4, "SONIC_MODE=noavx2")]
     sums = []
     for mode, stride, env in runs:
         sfile = os.path.join(ctx.work, "rt.json")
